@@ -241,28 +241,30 @@ Theorem gen_ring_free_matches_model :
 Proof. exact (conj gen_ring_free_ref model_ring_store_ref). Qed.
 Print Assumptions gen_ring_free_matches_model.
 
-(* ---- init functions: for EVERY argument pair, every allocation outcome and every function in the place of
-   muggle_next_pow_of_2 the regenerated init equals the reference; with the C20 model of
-   muggle_next_pow_of_2 the reference refuses exactly the arguments whose rounded capacity does not fit
-   muggle_sync_t (and the listed degenerate sizes), and otherwise leaves the capacity next_pow2 and the
-   cursors of the model's initial state ---- *)
+(* ---- init functions (REPAIRED code, fixes/C05-init-size-overflow.patch): for EVERY argument pair, every allocation
+   outcome and every function in the place of muggle_next_pow_of_2 the regenerated init equals the reference; with the
+   C20 model of muggle_next_pow_of_2 the reference refuses exactly the arguments whose rounded capacity does not fit
+   muggle_sync_t, the degenerate sizes, and every data area capacity * block_size above UINT32_MAX (area_fits), and
+   otherwise leaves the capacity next_pow2 and the cursors of the model's initial state ---- *)
 Theorem gen_ts_init_matches_model :
   (forall npo2 a bs c cap f ptrs a1 a2 m1 m2, u32 a1 -> u32 a2 ->
      gen_ts_init npo2 a bs c cap f ptrs a1 a2 m1 m2 = ref_ts_init npo2 a bs c cap f ptrs a1 a2 m1 m2) /\
   (forall a bs c cap f ptrs c0 d m1 m2, 0 <= c0 < two32 -> 0 <= d < two32 ->
-     c0 = 0 \/ 2147483648 < c0 \/ d = 0 \/ align_ts code_sizeof_muggle_ts_memory_pool_head_t d = 0 ->
+     c0 = 0 \/ 2147483648 < c0 \/ d = 0 \/
+     ~ area_fits (npo2z c0) (true_sharing (code_sizeof_muggle_ts_memory_pool_head_t + d)) ->
      ref_ts_init npo2z a bs c cap f ptrs c0 d m1 m2 =
        (code_MUGGLE_ERR_INVALID_PARAM, a, bs, c, cap, f, ptrs, -1, -1, -1, -1)) /\
   (forall a bs c cap f ptrs c0 d m1 m2 n scripts,
-     1 <= c0 <= 2147483648 -> 1 <= d < two32 -> align_ts code_sizeof_muggle_ts_memory_pool_head_t d <> 0 ->
+     1 <= c0 <= 2147483648 -> 1 <= d < two32 ->
+     area_fits (npo2z c0) (true_sharing (code_sizeof_muggle_ts_memory_pool_head_t + d)) ->
      m1 <> 0 -> m2 <> 0 ->
      let s0 := tinit (next_pow2 (Z.to_nat c0)) n scripts in
      let cap' := zn (t_cap s0) in
-     let bs' := align_ts code_sizeof_muggle_ts_memory_pool_head_t d in
+     let bs' := true_sharing (code_sizeof_muggle_ts_memory_pool_head_t + d) in
      ref_ts_init npo2z a bs c cap f ptrs c0 d m1 m2 =
        (code_MUGGLE_OK, zn (t_alloc s0), bs', zn (t_cached s0), cap', zn (t_free s0),
         lfill ptrs cap' (fun i => i) (fun i => blkidx 32 bs' i),
-        (cap' * bs') mod two32, cap' * code_sizeof_muggle_ts_memory_pool_head_ptr_t, 1, 2) /\
+        cap' * bs', cap' * code_sizeof_muggle_ts_memory_pool_head_ptr_t, 1, 2) /\
      pow2cap cap' /\ c0 <= cap' /\ (forall j, t_ptrs s0 j = j)).
 Proof. exact (conj gen_ts_init_ref (conj ts_init_refuses ts_init_accepts)). Qed.
 Print Assumptions gen_ts_init_matches_model.
@@ -271,16 +273,17 @@ Theorem gen_sowr_init_matches_model :
   (forall npo2 a bs c cap f hb a1 a2 m1, u32 a1 -> u32 a2 ->
      gen_sowr_init npo2 a bs c cap f hb a1 a2 m1 = ref_sowr_init npo2 a bs c cap f hb a1 a2 m1) /\
   (forall a bs c cap f hb c0 d m1, 0 <= c0 < two32 -> 0 <= d < two32 ->
-     2147483648 < c0 \/ align_ts code_sizeof_muggle_sowr_block_head_t d = 0 ->
+     2147483648 < c0 \/ ~ area_fits (npo2z (sowr_cap_arg c0)) (true_sharing (code_sizeof_muggle_sowr_block_head_t + d)) ->
      ref_sowr_init npo2z a bs c cap f hb c0 d m1 = (code_MUGGLE_ERR_INVALID_PARAM, 0, 0, 0, 0, 0, hb, -1, 0)) /\
   (forall a bs c cap f hb c0 d m1 n scripts,
-     0 <= c0 <= 2147483648 -> 0 <= d < two32 -> align_ts code_sizeof_muggle_sowr_block_head_t d <> 0 -> m1 <> 0 ->
+     0 <= c0 <= 2147483648 -> 0 <= d < two32 ->
+     area_fits (npo2z (sowr_cap_arg c0)) (true_sharing (code_sizeof_muggle_sowr_block_head_t + d)) -> m1 <> 0 ->
      let s0 := sinit (zn (next_pow2 (Z.to_nat (sowr_cap_arg c0)))) 0 n scripts in
      let cap' := s_cap s0 in
-     let bs' := align_ts code_sizeof_muggle_sowr_block_head_t d in
+     let bs' := true_sharing (code_sizeof_muggle_sowr_block_head_t + d) in
      ref_sowr_init npo2z a bs c cap f hb c0 d m1 =
        (code_MUGGLE_OK, s_alloc s0, bs', s_cached s0, cap', s_free s0,
-        lfill hb cap' (fun i => blkidx 32 bs' i) (fun i => i), (bs' * cap') mod two32, 1) /\
+        lfill hb cap' (fun i => blkidx 32 bs' i) (fun i => i), cap' * bs', 1) /\
      pow2cap cap' /\ sowr_cap_arg c0 <= cap').
 Proof. exact (conj gen_sowr_init_ref (conj sowr_init_refuses sowr_init_accepts)). Qed.
 Print Assumptions gen_sowr_init_matches_model.
@@ -288,17 +291,20 @@ Print Assumptions gen_sowr_init_matches_model.
 Theorem gen_ring_init_matches_model :
   (forall npo2 a bs cap hb hu a1 a2 m1, u32 a1 -> u32 a2 ->
      gen_ring_init npo2 a bs cap hb hu a1 a2 m1 = ref_ring_init npo2 a bs cap hb hu a1 a2 m1) /\
-  (forall a bs cap hb hu c0 d m1, 0 <= c0 < two32 -> 0 <= d < two32 -> 2147483648 < c0 \/ d = 0 ->
+  (forall a bs cap hb hu c0 d m1, 0 <= c0 < two32 -> 0 <= d < two32 ->
+     2147483648 < c0 \/ d = 0 \/
+     ~ area_fits (npo2z (ring_cap_arg c0)) (npo2z (d + code_sizeof_muggle_ring_mpool_block_head_t)) ->
      ref_ring_init npo2z a bs cap hb hu c0 d m1 = (code_MUGGLE_ERR_INVALID_PARAM, 0, 0, 0, hb, hu, -1, 0)) /\
   (forall a bs cap hb hu c0 d m1 n locked scripts,
-     0 <= c0 <= 2147483648 -> 1 <= d < two32 -> m1 <> 0 ->
+     0 <= c0 <= 2147483648 -> 1 <= d < two32 ->
+     area_fits (npo2z (ring_cap_arg c0)) (npo2z (d + code_sizeof_muggle_ring_mpool_block_head_t)) -> m1 <> 0 ->
      let s0 := rinit (next_pow2 (Z.to_nat (ring_cap_arg c0))) n locked scripts in
      let cap' := zn (r_cap s0) in
-     let bs' := npo2z (d + code_sizeof_muggle_ring_mpool_block_head_t) mod two32 in
+     let bs' := npo2z (d + code_sizeof_muggle_ring_mpool_block_head_t) in
      ref_ring_init npo2z a bs cap hb hu c0 d m1 =
        (code_MUGGLE_OK, zn (r_cursor s0), bs', cap',
         lfill hb cap' (fun i => blkidx 32 bs' i) (fun i => i),
-        lfill hu cap' (fun i => blkidx 32 bs' i) (fun _ => 0), (bs' * cap') mod two32, 1) /\
+        lfill hu cap' (fun i => blkidx 32 bs' i) (fun _ => 0), cap' * bs', 1) /\
      pow2cap cap' /\ 2 <= cap' /\ ring_cap_arg c0 <= cap' /\ (forall j, r_inuse s0 j = 0%nat)).
 Proof. exact (conj gen_ring_init_ref (conj ring_init_refuses ring_init_accepts)). Qed.
 Print Assumptions gen_ring_init_matches_model.
@@ -309,79 +315,59 @@ Theorem model_capacity_rounding_is_next_pow_of_2 : forall c, 1 <= c <= 214748364
 Proof. exact (fun c H => conj (next_pow2_npo2z c H) (npo2z_cap c H)). Qed.
 Print Assumptions model_capacity_rounding_is_next_pow_of_2.
 
-(* ---- init-time size products, with the widths of the C text ----
-   full statement (REFUTED for all three pools):  whenever init returns MUGGLE_OK the bytes requested from the
-   allocator equal capacity * block_size and block_size >= sizeof(head) + data_size.
-   The C text computes block_size and capacity * block_size on muggle_sync_t (32 bits); the statement holds
-   exactly when the data area is smaller than 4 GiB (_partial), and init ACCEPTS larger requests with a
-   wrapped size (_refuted: witnesses computed on the regenerated text). *)
-Theorem ts_init_sizes_partial : forall a bs c cap f ptrs c0 d m1 m2,
-  1 <= c0 <= 2147483648 -> 1 <= d -> m1 <> 0 -> m2 <> 0 ->
+(* ---- init-time size products (REPAIRED code): for EVERY argument pair init either refuses or requests exactly
+   capacity * block_size bytes for blocks that hold head + data_size, every block offset (a 32-bit product in the C
+   text) is exact and every ring cell / header word holds its own block index ---- *)
+Theorem ts_init_sizes_exact : forall a bs c cap f ptrs c0 d m1 m2,
+  0 <= c0 < two32 -> 0 <= d < two32 -> m1 <> 0 -> m2 <> 0 ->
   let cap' := npo2z c0 in
   let bs' := true_sharing (code_sizeof_muggle_ts_memory_pool_head_t + d) in
-  cap' * bs' < two32 ->
+  gen_ts_init npo2z a bs c cap f ptrs c0 d m1 m2 = (code_MUGGLE_ERR_INVALID_PARAM, a, bs, c, cap, f, ptrs, -1, -1, -1, -1) \/
   exists ptrs',
     gen_ts_init npo2z a bs c cap f ptrs c0 d m1 m2 =
       (code_MUGGLE_OK, 0, bs', 0, cap', 0, ptrs', cap' * bs', cap' * code_sizeof_muggle_ts_memory_pool_head_ptr_t, 1, 2) /\
-    fits cap' bs' /\ code_sizeof_muggle_ts_memory_pool_head_t + d + 128 <= bs' /\
+    1 <= c0 <= cap' /\ pow2cap cap' /\ fits cap' bs' /\ code_sizeof_muggle_ts_memory_pool_head_t + d + 128 <= bs' /\
     (forall i, 0 <= i < cap' -> blkidx 32 bs' i = i) /\
     (zlenZ ptrs = cap' -> forall j, 0 <= j < cap' -> lget ptrs' j = j).
-Proof. exact ts_init_sizes_partial_l. Qed.
-Print Assumptions ts_init_sizes_partial.
+Proof. exact ts_init_sizes_exact_l. Qed.
+Print Assumptions ts_init_sizes_exact.
 
-Theorem ts_init_sizes_refuted :
-  (exists c0 d bs' cap' msz,
-     gen_ts_init npo2z 0 0 0 0 0 [] c0 d 1 1 =
-       (code_MUGGLE_OK, 0, bs', 0, cap', 0, [], msz, cap' * code_sizeof_muggle_ts_memory_pool_head_ptr_t, 1, 2) /\
-     1 <= c0 <= 8 /\ d < bs' /\ msz < cap' * bs') /\
-  (exists d bs' msz,
-     gen_ts_init npo2z 0 0 0 0 0 [] 1 d 1 1 =
-       (code_MUGGLE_OK, 0, bs', 0, 1, 0, [], msz, code_sizeof_muggle_ts_memory_pool_head_ptr_t, 1, 2) /\
-     0 <= d < two32 /\ bs' < d).
-Proof. exact (conj ts_init_size_product_wraps_l ts_init_block_size_wraps_l). Qed.
-Print Assumptions ts_init_sizes_refuted.
-
-Theorem sowr_init_sizes_partial : forall a bs c cap f hb c0 d m1,
-  0 <= c0 <= 2147483648 -> 0 <= d -> m1 <> 0 ->
+Theorem sowr_init_sizes_exact : forall a bs c cap f hb c0 d m1,
+  0 <= c0 < two32 -> 0 <= d < two32 -> m1 <> 0 ->
   let cap' := npo2z (sowr_cap_arg c0) in
   let bs' := true_sharing (code_sizeof_muggle_sowr_block_head_t + d) in
-  cap' * bs' < two32 ->
+  gen_sowr_init npo2z a bs c cap f hb c0 d m1 = (code_MUGGLE_ERR_INVALID_PARAM, 0, 0, 0, 0, 0, hb, -1, 0) \/
   exists hb',
     gen_sowr_init npo2z a bs c cap f hb c0 d m1 = (code_MUGGLE_OK, 0, bs', cap' - 1, cap', 0, hb', cap' * bs', 1) /\
-    fits cap' bs' /\ code_sizeof_muggle_sowr_block_head_t + d + 128 <= bs' /\
+    sowr_cap_arg c0 <= cap' /\ pow2cap cap' /\ fits cap' bs' /\ code_sizeof_muggle_sowr_block_head_t + d + 128 <= bs' /\
     (forall i, 0 <= i < cap' -> blkidx 32 bs' i = i) /\
     (zlenZ hb = cap' -> forall j, 0 <= j < cap' -> lget hb' j = j).
-Proof. exact sowr_init_sizes_partial_l. Qed.
-Print Assumptions sowr_init_sizes_partial.
+Proof. exact sowr_init_sizes_exact_l. Qed.
+Print Assumptions sowr_init_sizes_exact.
 
-Theorem sowr_init_sizes_refuted : exists c0 d bs' cap' msz,
-  gen_sowr_init npo2z 0 0 0 0 0 [] c0 d 1 = (code_MUGGLE_OK, 0, bs', cap' - 1, cap', 0, [], msz, 1) /\
-  1 <= c0 <= 8 /\ d < bs' /\ msz < cap' * bs'.
-Proof. exact sowr_init_size_product_wraps_l. Qed.
-Print Assumptions sowr_init_sizes_refuted.
-
-Theorem ring_init_sizes_partial : forall a bs cap hb hu c0 d m1,
-  0 <= c0 <= 2147483648 -> 1 <= d < two32 -> m1 <> 0 ->
+Theorem ring_init_sizes_exact : forall a bs cap hb hu c0 d m1,
+  0 <= c0 < two32 -> 0 <= d < two32 -> m1 <> 0 ->
   let cap' := npo2z (ring_cap_arg c0) in
   let bs' := npo2z (d + code_sizeof_muggle_ring_mpool_block_head_t) in
-  cap' * bs' < two32 ->
+  gen_ring_init npo2z a bs cap hb hu c0 d m1 = (code_MUGGLE_ERR_INVALID_PARAM, 0, 0, 0, hb, hu, -1, 0) \/
   exists hb' hu',
     gen_ring_init npo2z a bs cap hb hu c0 d m1 = (code_MUGGLE_OK, 0, bs', cap', hb', hu', cap' * bs', 1) /\
-    fits cap' bs' /\ d + code_sizeof_muggle_ring_mpool_block_head_t <= bs' /\
+    ring_cap_arg c0 <= cap' /\ pow2cap cap' /\ fits cap' bs' /\ d + code_sizeof_muggle_ring_mpool_block_head_t <= bs' /\
     (forall i, 0 <= i < cap' -> blkidx 32 bs' i = i) /\
     (zlenZ hb = cap' -> forall j, 0 <= j < cap' -> lget hb' j = j) /\
     (zlenZ hu = cap' -> forall j, 0 <= j < cap' -> lget hu' j = 0).
-Proof. exact ring_init_sizes_partial_l. Qed.
-Print Assumptions ring_init_sizes_partial.
+Proof. exact ring_init_sizes_exact_l. Qed.
+Print Assumptions ring_init_sizes_exact.
 
-Theorem ring_init_sizes_refuted :
-  (exists c0 d bs' cap' msz,
-     gen_ring_init npo2z 0 0 0 [] [] c0 d 1 = (code_MUGGLE_OK, 0, bs', cap', [], [], msz, 1) /\
-     1 <= c0 <= 8 /\ d < bs' /\ msz < cap' * bs') /\
-  (exists d cap' msz,
-     gen_ring_init npo2z 0 0 0 [] [] 2 d 1 = (code_MUGGLE_OK, 0, 0, cap', [], [], msz, 1) /\ 1 <= d < two32).
-Proof. exact (conj ring_init_size_product_wraps_l ring_init_block_size_wraps_l). Qed.
-Print Assumptions ring_init_sizes_refuted.
+(* the argument pairs that the unrepaired code accepted with a wrapped size are refused *)
+Theorem init_oversize_refused :
+  (gen_ts_init npo2z 0 0 0 0 0 [] 8 536870912 1 1 = (code_MUGGLE_ERR_INVALID_PARAM, 0, 0, 0, 0, 0, [], -1, -1, -1, -1) /\
+   gen_ts_init npo2z 0 0 0 0 0 [] 1 4294967288 1 1 = (code_MUGGLE_ERR_INVALID_PARAM, 0, 0, 0, 0, 0, [], -1, -1, -1, -1)) /\
+  gen_sowr_init npo2z 0 0 0 0 0 [] 8 536870912 1 = (code_MUGGLE_ERR_INVALID_PARAM, 0, 0, 0, 0, 0, [], -1, 0) /\
+  (gen_ring_init npo2z 0 0 0 [] [] 2 2147483648 1 = (code_MUGGLE_ERR_INVALID_PARAM, 0, 0, 0, [], [], -1, 0) /\
+   gen_ring_init npo2z 0 0 0 [] [] 8 536870912 1 = (code_MUGGLE_ERR_INVALID_PARAM, 0, 0, 0, [], [], -1, 0)).
+Proof. exact (conj ts_init_oversize_refused_l (conj sowr_init_oversize_refused_l ring_init_oversize_refused_l)). Qed.
+Print Assumptions init_oversize_refused.
 
 (* ---- init in the model's terms (C05/Model.v section 4: ts_init_cap / sowr_init_cap / ring_init_cap, block sizes,
    slab_bytes; printed by both drivers as the "F geom" line): head sizes as in the headers of this run, and for
@@ -390,21 +376,22 @@ Theorem model_init_geometry_matches_code :
   (head_ts = code_sizeof_muggle_ts_memory_pool_head_t /\ head_sowr = code_sizeof_muggle_sowr_block_head_t /\
    head_ring = code_sizeof_muggle_ring_mpool_block_head_t /\ cell_ts = code_sizeof_muggle_ts_memory_pool_head_ptr_t) /\
   (forall a bs c cap f ptrs c0 d m1 m2 cap',
-     1 <= c0 <= 2147483648 -> 1 <= d < two32 -> ts_block_size d <> 0 -> m1 <> 0 -> m2 <> 0 ->
+     1 <= c0 <= 2147483648 -> 1 <= d < two32 -> area_fits (npo2z c0) (true_sharing (head_ts + d)) -> m1 <> 0 -> m2 <> 0 ->
      ts_init_cap (Z.to_nat c0) = Some cap' ->
      ref_ts_init npo2z a bs c cap f ptrs c0 d m1 m2 =
        (code_MUGGLE_OK, 0, ts_block_size d, 0, zn cap', 0,
         lfill ptrs (zn cap') (fun i => i) (fun i => blkidx 32 (ts_block_size d) i),
         slab_bytes (zn cap') (ts_block_size d), zn cap' * cell_ts, 1, 2)) /\
   (forall a bs c cap f hb c0 d m1 cap',
-     0 <= c0 <= 2147483648 -> 0 <= d < two32 -> sowr_block_size d <> 0 -> m1 <> 0 ->
+     0 <= c0 <= 2147483648 -> 0 <= d < two32 -> area_fits (npo2z (sowr_cap_arg c0)) (true_sharing (head_sowr + d)) -> m1 <> 0 ->
      sowr_init_cap (Z.to_nat c0) = Some cap' ->
      ref_sowr_init npo2z a bs c cap f hb c0 d m1 =
        (code_MUGGLE_OK, 0, sowr_block_size d, zn cap' - 1, zn cap', 0,
         lfill hb (zn cap') (fun i => blkidx 32 (sowr_block_size d) i) (fun i => i),
         slab_bytes (zn cap') (sowr_block_size d), 1)) /\
   (forall a bs cap hb hu c0 d m1 cap',
-     0 <= c0 <= 2147483648 -> 1 <= d -> d + head_ring <= 2147483648 -> m1 <> 0 ->
+     0 <= c0 <= 2147483648 -> 1 <= d -> d + head_ring <= 2147483648 ->
+     area_fits (npo2z (ring_cap_arg c0)) (npo2z (d + head_ring)) -> m1 <> 0 ->
      ring_init_cap (Z.to_nat c0) = Some cap' ->
      ref_ring_init npo2z a bs cap hb hu c0 d m1 =
        (code_MUGGLE_OK, 0, ring_block_size d, zn cap',
